@@ -41,7 +41,7 @@ FAULT_FILE = Suite(
     name="fault-file", harness="vh_fault", runner="fault",
     model_deps=["theories/Model/FileRest.vo", "theories/Model/FileFault.vo"],
     quick_n=2100, thorough_n=9000, rewrite=rewrite_counter_for_faults, tags="verif,verifconc,veriffault",
-    rule="(a) rest cases (quick: what remains of n after the 800 plan, 570 cfail, 26 openapi and 172 dup cases; thorough: the remainder likewise): a counter file is built with the real code (1-6 counters, same-bucket, long and "
+    rule="(a) rest cases (quick: what remains of n after the 800 plan, 570 cfail, 26 openapi, 172 dup and 4 env cases; thorough: the remainder likewise): a counter file is built with the real code (1-6 counters, same-bucket, long and "
          "short names, four header lengths), damaged at rest by one of: allocation limit (0, inside header / table, "
          "at / inside / just after a record, true limit +-32, at / beyond EOF, values whose page rounding wraps around "
          "4 GiB), a bucket head or a next link (0, own record, other record, into the header, past EOF, unaligned by "
@@ -66,7 +66,10 @@ FAULT_FILE = Suite(
          "configuration directory at all (zero telemetry.Dir) x rotate in {false, true}; the child calls Open(rotate) "
          "twice with the same value, increments a counter and calls the close functions; a panic or a crash of the "
          "child is class panic; whether a counter file was created is compared with Model/FileFault.mode_off. "
-         "(c) cfail cases (570 in quick): one goroutine runs Counter.Add on a mapped file while rotate1 FAILS (mode "
+         "(f) env cases (4, oracle only; every file-system call is a scheduling point, step budget 6000): "
+         "local/weekends is a directory / a dangling symbolic link, then rotate1 and Adds; the counter file is deleted / "
+         "replaced by an empty file while mapped, then counters that need an extension: oracles panic, hang, "
+         "counts-invented. (c) cfail cases (570 in quick): one goroutine runs Counter.Add on a mapped file while rotate1 FAILS (mode "
          "switched off, weekends unreadable, MkdirAll / OpenFile / mmap of the new week's file failing, short header "
          "write) and parks the file: the failing rotation runs to completion after the first k steps of the Add, for "
          "every k (quick 0..24, thorough 0..60; counter with / without a pointer), and the rotation stopped after j "
